@@ -1,6 +1,7 @@
 import Driver.Manager
 import Driver.Stream
 import Driver.Sym
+import Driver.Aead
 /-!
   `tvdrv`: one line in, one line out. The first token selects the model.
   Unknown or malformed lines answer `bad-op` (never a default).
@@ -25,6 +26,10 @@ def dispatch (st : DState) (line : String) : DState × String :=
   | "S" :: rest =>
     match Driver.Strm.handle st.strm rest with
     | some (m, out) => ({ st with strm := m }, out)
+    | none => (st, "bad-op")
+  | "A" :: rest =>
+    match Driver.AeadD.handle rest with
+    | some out => (st, out)
     | none => (st, "bad-op")
   | "X" :: rest =>
     match Driver.Sym.handle rest with
